@@ -116,6 +116,8 @@ def impl(op, a):
         conf = h5._conf_kind(a[5][0] if a[5] else 0, a[0], a[1])
         data = bytearray(a[3]) if len(a[5]) > 1 and a[5][1] else bytes(a[3])
         params = FileDataParams(file_data=data, offset=a[2][0], segment_metadata=_meta(a[4]))
+        if len(a[5]) > 2 and a[5][2] and not a[3] and a[2][0] == 0 and _meta(a[4]) is None:
+            params = FileDataParams.empty()         # the alternate constructor of the same parameter object
         p = FileDataPdu(conf, params)
         return (_fdstate(p) + _conf_lists(conf)
                 + h5.run_history(a[6:], lambda l: apply_fd_op(p, params, l), lambda: _fdstate(p))
@@ -514,9 +516,11 @@ def streams(tier, rng):
         if rng.random() < 0.3:
             a[3] = _special_data(rng, rng.choice(SIZES))
         kind = rng.choice([0, 0, 0, 0, 0, 1, 2])
+        if rng.random() < 0.06:
+            a[2], a[3], a[4] = [0], [], [0]         # FileDataParams.empty()
         st = fd_state_of(a, kind)
         ops, _ = rand_fd_history(rng, st, rng.randrange(0, 11))
-        cases.append((1407, a + [[kind, rng.randrange(2)]] + ops))
+        cases.append((1407, a + [[kind, rng.randrange(2), 1]] + ops))
     for _ in range(3000 if big else 450):
         a = _rand_pdu(rng)
         if rng.random() < 0.4:
